@@ -70,6 +70,10 @@ func (f *Recover) Call(s *slip.Scope, args slip.List, depth int) (result slip.Ob
 	}()
 	for i := 2; i < len(args); i++ {
 		result = slip.EvalArg(s, args, i, d2)
+		if _, exit := result.(slip.NonLocalExit); exit {
+			// return-from, return or go: control is leaving the body.
+			return
+		}
 	}
 	return
 }
